@@ -932,6 +932,16 @@ def check_cov(case, ctx):
         r = sut(es.cov2cor, c)
         require(isinstance(r, Raised) and isinstance(r.exc, ValueError),
                 "cov2cor with diagonal entry [%d]=%r must raise ValueError, got %r", bad[0], bad[1], r)
+        # life goes on after a rejected call: valid calls whose arithmetic underflows harmlessly still return their
+        # defined values (nothing the rejected call set up may stay behind)
+        m1 = must(es.wmom, np.array([1.0, 2.0, 4.0]), np.array([1e-200, 1.0, 1e-200]))
+        require(float(m1[0]) == 2.0, "after a rejected cov2cor call wmom([1,2,4], w=[1e-200,1,1e-200]) = %r, "
+                "sum(w x)/sum(w) = 2", m1[0])
+        m2 = must(es.wmom, np.array([1e-170, 2e-170, 3e-170]), np.ones(3))
+        require(abs(float(m2[0]) - 2e-170) <= 1e-185, "after a rejected cov2cor call wmom([1,2,3]*1e-170) = %r", m2[0])
+        m3 = must(es.sigma_clip, np.array([1e-170, 2e-170, 3e-170, 2e-170]), nsig=5.0, get_indices=True)
+        require(len(m3) == 3 and np.asarray(m3[2]).size == 4, "after a rejected cov2cor call sigma_clip of four tiny "
+                "values kept %r points", np.asarray(m3[2]).size if len(m3) == 3 else m3)
         return
     cin = c.copy()
     how = case.get("as", "f8")
